@@ -1153,3 +1153,183 @@ Definition lost_plan (c : cfg) (j : nat) : bool :=
   | None => false end
   && all_done c && negb (pending_start c j)
   && negb (existsb (fun r => match q_msg r with MStartTask j' _ => j' =? j | _ => false end) (w_queue (fst c))).
+
+(* ------------------------------------------------------------------------------------------ *)
+(* part 6: well-formed program counters (what the handlers can have in flight)                 *)
+(* ------------------------------------------------------------------------------------------ *)
+
+Definition no_starttask (qs : list qop) : Prop := forall i t, ~ In (QPush (MStartTask i t)) qs.
+
+(* a stage object the StartStage handler goes on to claim: NOT_STARTED, or a zombie (RUNNING, plan commit missing) *)
+Definition claimable (st : stage) : Prop :=
+  s_status st = NOT_STARTED \/ (s_status st = RUNNING /\ (s_plan_pending st = true \/ s_tasks st = [])).
+(* a claimed object whose plan commit is still to come *)
+Definition planable (cl : stage) : Prop :=
+  s_status cl = RUNNING /\ (s_plan_pending cl = true \/ s_tasks cl = []).
+
+Fixpoint pc_wf (k : wkind) (p : pc) : Prop :=
+  match p with
+  | SReadMutex st | SReadChoice st | SClaim st => claimable st
+  | SReadSibs cl => planable cl
+  | PCas j base phase m qs ok fail =>
+      pc_wf k ok /\ pc_wf k fail /\
+      match m with
+      | MPlan => (exists id i r, k = WStart id i r /\ j = i /\ qs = QMark id :: map QPush (first_msgs i base)) /\ planable base
+      | MTerminal => (exists id i r, k = WStart id i r) /\ no_starttask qs
+      | MBranch b' => (exists id, k = WComplete id b') /\ qs = []
+      | MEnd x => (exists id, k = WComplete id j) /\ end_ok x = true /\ no_starttask qs
+      | MBuffer n => (exists id i, k = WSignal id i n) /\ no_starttask qs
+      end
+  | PCommits cs next => Forall no_starttask cs /\ pc_wf k next
+  | _ => True
+  end.
+
+Definition wfw (w : worker) : Prop := pc_wf (w_kind w) (w_pc w).
+
+Lemma wf_commits k cs next : Forall no_starttask cs -> pc_wf k next -> pc_wf k (commits cs next).
+Proof. destruct cs; simpl; auto. Qed.
+
+Lemma nst_nil : no_starttask []. Proof. intros i t []. Qed.
+Lemma nst_cons q qs : (forall i t, q <> QPush (MStartTask i t)) -> no_starttask qs -> no_starttask (q :: qs).
+Proof. intros H1 H2 i t [E|E]; [eapply H1; eauto|eapply H2; eauto]. Qed.
+Ltac nst := repeat (first [apply nst_nil | apply nst_cons; [intros ? ?; discriminate|]]).
+
+Lemma nst_map_start ds : no_starttask (map QPush (map (fun d => MStartStage d 0) ds)).
+Proof. intros i t H. apply in_map_iff in H. destruct H as [m [E H]]. apply in_map_iff in H. destruct H as [d [<- _]]. discriminate. Qed.
+
+Lemma wf_retry k outer : pc_wf k (retry_or_raise k outer).
+Proof. destruct outer; simpl; auto. destruct k; simpl; auto. Qed.
+
+Lemma can_running_not_ns x : can_transition RUNNING x = true -> status_eqb x NOT_STARTED = false.
+Proof. destruct x; vm_compute; congruence. Qed.
+
+Lemma wf_plan id i retry cl : planable cl -> pc_wf (WStart id i retry) (plan_pc id i cl).
+Proof.
+  intros H. unfold plan_pc. simpl. split; [exact I|]. split; [destruct plan_conc_error_swallowed; exact I|].
+  split; [|exact H]. exists id, i, retry. auto.
+Qed.
+
+Lemma claim_obj_planable st : claimable (eff st) -> planable (claim_obj st).
+Proof.
+  intros Hc. unfold planable. split; [apply claim_obj_status|].
+  unfold claim_obj. destruct (status_eqb (s_status (eff st)) claim_phase_zombie) eqn:E; simpl; [|left; reflexivity].
+  apply status_eqb_eq in E. destruct Hc as [Hn|[_ Hp]]; [unfold claim_phase_zombie in E; congruence|exact Hp].
+Qed.
+
+Lemma eff_claimable st : claimable st -> claimable (eff st).
+Proof. unfold claimable, eff. destruct (s_bypass st); simpl; auto. Qed.
+
+Lemma wf_final id b outer st x ds :
+  end_ok x = true -> pc_wf (WComplete id b) (final_pc (WComplete id b) outer id b st x ds).
+Proof.
+  intros He. unfold final_pc. simpl. split; [exact I|]. split; [apply wf_retry|].
+  split; [exists id; reflexivity|]. split; [exact He|].
+  apply nst_cons; [intros ? ?; discriminate|]. destruct ds; [nst|apply nst_map_start].
+Qed.
+
+Lemma wf_track id b outer st x ds todo fuel :
+  end_ok x = true -> pc_wf (WComplete id b) (track_pc (WComplete id b) outer id b st x ds todo fuel).
+Proof. intros He. unfold track_pc. destruct todo; [apply wf_final; exact He|exact I]. Qed.
+
+(* the end status computed by complete_read passes end_ok *)
+Lemma complete_read_end_ok st x :
+  complete_stage_guard (s_status st) = true -> status_eqb x RUNNING = false -> can_transition (s_status st) x = true -> end_ok x = true.
+Proof.
+  intros Hg Hr Hc. unfold complete_stage_guard in Hg. rewrite negb_involutive in Hg. apply status_eqb_eq in Hg. rewrite Hg in Hc.
+  unfold end_ok. rewrite Hr, (can_running_not_ns _ Hc). reflexivity.
+Qed.
+
+Lemma wf_step s w k e p : wfw w -> step_worker s w = Some (k, e, p) -> pc_wf (w_kind w) p.
+Proof.
+  unfold wfw, step_worker. destruct (w_pc w) eqn:Hpc; intros Hw H; try discriminate.
+  - (* SReadStage *)
+    destruct (w_kind w) eqn:Hk; try discriminate. inversion H; subst. destruct (get_stage s i); exact I.
+  - (* SReadUps *)
+    destruct (w_kind w) eqn:Hk; try discriminate. inversion H; subst. clear H. unfold after_ups.
+    destruct (rr_phase _).
+    + destruct (negb (start_stage_fresh (s_status (eff st))) && _) eqn:Hz; [exact I|].
+      assert (claimable st) as Hcl.
+      { apply andb_false_iff in Hz. unfold claimable. rewrite <- eff_status.
+        destruct Hz as [Hz|Hz].
+        - apply negb_false_iff in Hz. unfold start_stage_fresh in Hz. rewrite negb_involutive in Hz. apply status_eqb_eq in Hz. auto.
+        - apply negb_false_iff in Hz. apply andb_prop in Hz. destruct Hz as [H1 H2]. apply status_eqb_eq in H1.
+          right. split; [exact H1|]. apply orb_prop in H2. unfold eff in H2. destruct (s_bypass st); simpl in H2;
+            (destruct H2 as [H2|H2]; [left; exact H2|right; apply is_nil_true; exact H2]). }
+      destruct (should_skip (eff st)); [apply wf_commits; [constructor; [nst|constructor]|exact I]|].
+      unfold after_mutex_check, after_choice_check.
+      destruct (s_mutex (eff st)); [exact Hcl|]. destruct (s_choice (eff st)); exact Hcl.
+    + destruct (start_stage_late _); [exact I|]. destruct (start_stage_waits _ _); [exact I|].
+      destruct (wait_exhausted _ _).
+      * simpl. repeat split; auto; [exists id, i, retry; reflexivity|nst].
+      * apply wf_commits; [constructor; [nst|constructor]|exact I].
+    + apply wf_commits; [constructor; [nst|constructor]|exact I].
+    + destruct (start_stage_late _); [exact I|]. destruct (start_stage_waits _ _); [exact I|].
+      destruct (wait_exhausted _ _).
+      * simpl. repeat split; auto; [exists id, i, retry; reflexivity|nst].
+      * apply wf_commits; [constructor; [nst|constructor]|exact I].
+  - (* SReadMutex *)
+    destruct (w_kind w) eqn:Hk; try discriminate. inversion H; subst. clear H. simpl in Hw.
+    destruct (mutex_blocked s i (eff st)).
+    + unfold requeue_pc. apply wf_commits; [constructor; [nst|constructor]|exact I].
+    + unfold after_mutex_check, after_choice_check. destruct (s_choice (eff st)); exact Hw.
+  - (* SReadChoice *)
+    destruct (w_kind w) eqn:Hk; try discriminate. inversion H; subst. clear H. simpl in Hw.
+    destruct (choice_claimed s i (eff st)).
+    + unfold cancel_self_pc. apply wf_commits; [constructor; [nst|constructor]|exact I].
+    + exact Hw.
+  - (* SClaim *)
+    destruct (w_kind w) eqn:Hk; try discriminate. inversion H; subst. clear H. simpl in Hw.
+    unfold claim_step.
+    destruct (fst match s_mutex (eff st) with Some k0 => acquire_claim s true k0 i mutex_claim_steals | None => (true, w_claims s) end); simpl.
+    2:{ unfold requeue_pc. apply wf_commits; [constructor; [nst|constructor]|exact I]. }
+    destruct (fst match s_choice (eff st) with Some g => _ | None => _ end); simpl.
+    2:{ unfold cancel_self_pc. apply wf_commits; [constructor; [nst|constructor]|exact I]. }
+    destruct (get_stage s i); [|exact I].
+    destruct (_ && _); simpl; [|destruct claim_conc_error_swallowed; exact I].
+    pose proof (claim_obj_planable st (eff_claimable _ Hw)) as Hp.
+    destruct (s_choice (eff st)); [exact Hp|apply wf_plan; exact Hp].
+  - (* SReadSibs *)
+    destruct (w_kind w) eqn:Hk; try discriminate. inversion H; subst. clear H. simpl in Hw.
+    unfold sibs_pc. apply wf_commits; [|apply wf_plan; exact Hw].
+    destruct (s_choice cl); [|constructor].
+    apply Forall_forall. intros c Hc. apply in_map_iff in Hc. destruct Hc as [j [<- _]]. nst.
+  - (* PCas *)
+    simpl in Hw. destruct Hw as [Hok [Hfail _]]. destruct (cas_ok s j base phase); inversion H; subst; assumption.
+  - (* PCommits *)
+    simpl in Hw. destruct Hw as [Hcs Hn]. destruct cs as [|c rest]; inversion H; subst; [exact Hn|].
+    apply wf_commits; [inversion Hcs; assumption|exact Hn].
+  - (* PMark *) inversion H; subst. exact I.
+  - (* CReadStage *)
+    destruct (w_kind w) eqn:Hk; try discriminate. inversion H; subst. clear H. unfold complete_read.
+    destruct (get_stage s b) as [st|]; [|exact I].
+    destruct (status_eqb (s_status st) NOT_STARTED); [apply wf_commits; [constructor; [nst|constructor]|exact I]|].
+    destruct (negb (complete_stage_guard (s_status st))) eqn:Hg.
+    { destruct (is_halt (s_status st)); [apply wf_commits; [constructor; [nst|constructor]|exact I]|exact I]. }
+    apply negb_false_iff in Hg.
+    destruct (status_eqb _ RUNNING) eqn:Hr; [apply wf_commits; [constructor; [nst|constructor]|exact I]|].
+    destruct (negb (can_transition _ _)) eqn:Hc; [exact I|]. apply negb_false_iff in Hc.
+    pose proof (complete_read_end_ok _ _ Hg Hr Hc) as He.
+    destruct (success_like _); [exact I|].
+    simpl. split; [exact I|]. split; [apply wf_retry|]. split; [exists id; reflexivity|]. split; [exact He|nst].
+  - (* CReadDown: x was checked when the pc was built; end_ok is re-derived from the object held *)
+    destruct (w_kind w) eqn:Hk; try discriminate. inversion H; subst. clear H.
+    destruct (end_ok x) eqn:He; [apply wf_track; exact He|].
+    (* a CReadDown pc with an end status that fails end_ok is never built; its continuation is still well-formed
+       because apply_mod (MEnd x) ignores such an x - but pc_wf asks for end_ok, so we keep the information in the pc *)
+    unfold track_pc. destruct (filter (tracked_join s) (downstream s b)); [|exact I].
+    exfalso. simpl in Hw. exact Hw.
+  - (* CTrackRead *)
+    destruct (w_kind w) eqn:Hk; try discriminate. inversion H; subst. clear H. simpl in Hw.
+    unfold track_read. destruct todo as [|d rest]; [apply wf_final; exact Hw|].
+    destruct (get_stage s d) as [fr|]; [|exact I].
+    destruct (mem_nat b (s_branches fr)); [apply wf_track; exact Hw|].
+    simpl. split; [apply wf_track; exact Hw|]. split.
+    + destruct fuel as [|[|f]]; [apply wf_retry|apply wf_retry|exact Hw].
+    + split; [exists id; reflexivity|reflexivity].
+  - (* BRead *)
+    destruct (w_kind w) eqn:Hk; try discriminate. inversion H; subst. clear H. unfold signal_read.
+    destruct (get_stage s i) as [st|]; [|exact I]. destruct (status_eqb (s_status st) SUSPENDED); [exact I|].
+    simpl. split; [exact I|]. split; [apply wf_retry|]. split; [exists id, i; reflexivity|nst].
+  - (* WSweep *)
+    destruct (w_kind w); try discriminate. inversion H; subst. exact I.
+Qed.
